@@ -293,6 +293,7 @@ class Pool(object):
             raise ValueError("threadpool sizes must be greater than zero")
         if config.THREADPOOL_SIZE_MIN > config.THREADPOOL_SIZE:
             raise ValueError("minimum threadpool size must be less than or equal to max size")
+        self.count_lock = threading.Lock()
         self.idle = set()
         self.busy = set()
         self.closed = False
@@ -301,7 +302,6 @@ class Pool(object):
             self.idle.add(worker)
             worker.start()
         log.debug("worker pool created with initial size %d", self.num_workers())
-        self.count_lock = threading.Lock()
 
     def __enter__(self):
         return self
@@ -339,27 +339,29 @@ class Pool(object):
         return len(self.busy) + len(self.idle)
 
     def process(self, job):
-        if self.closed:
-            raise PoolError("job queue is closed")
-        if self.idle:
-            worker = self.idle.pop()
-        elif self.num_workers() < config.THREADPOOL_SIZE:
-            worker = Worker(self)
-            worker.start()
-        else:
-            raise NoFreeWorkersError("no free workers available, increase thread pool size")
-        self.busy.add(worker)
-        worker.process(job)
+        with self.count_lock:
+            if self.closed:
+                raise PoolError("job queue is closed")
+            if self.idle:
+                worker = self.idle.pop()
+            elif self.num_workers() < config.THREADPOOL_SIZE:
+                worker = Worker(self)
+                worker.start()
+            else:
+                raise NoFreeWorkersError("no free workers available, increase thread pool size")
+            self.busy.add(worker)
+            worker.process(job)
         log.debug("worker counts: %d busy, %d idle", len(self.busy), len(self.idle))
 
     def notify_done(self, worker):
-        if worker in self.busy:
-            self.busy.remove(worker)
-        if self.closed:
-            worker.process(None)
-            return
-        if len(self.idle) >= config.THREADPOOL_SIZE_MIN:
-            worker.process(None)
-        else:
-            self.idle.add(worker)
+        with self.count_lock:
+            if worker in self.busy:
+                self.busy.remove(worker)
+            if self.closed:
+                worker.process(None)
+                return
+            if len(self.idle) >= config.THREADPOOL_SIZE_MIN:
+                worker.process(None)
+            else:
+                self.idle.add(worker)
         log.debug("worker counts: %d busy, %d idle", len(self.busy), len(self.idle))
